@@ -913,9 +913,11 @@ def check_C17(ctx):
     Dd = gens.dom_class(5) + gens.dom_boundary(chars=(b'_', b'x', b'-'))
     D = gens.dom_lines(Dd) + gens.dom_lines([d.replace(b'_', b'a') for d in Dd])
     addrs = gens.addr_structured() + [b'a#b@c.org', b'"a#b"@c.org', b'a@b_c.org', b'a_b@c_d.e_f', b'"a b"@c.org', b'a~b.{c}@d.com'] + gens.addr_class(3, alpha=[b'a', b'_', b'#', b'.', b'@', b'"', b' '])
+    addrs += [l + b'@' + d for l in [bytes([c]) for c in b'#^`{|}~'] + [b'a' + bytes([c]) + b'b' for c in b'#^`{|}~'] + [b'"' + bytes([c]) + b'"' for c in b'#^`{|}~'] + [b'"a b".#', '\u044e#b'.encode(), b'"a\tb"', b'" a"', b'"a "', b'"a\\ b"']
+              for d in (b'a.io', b'example.com', b'[1.2.3.4]')]
     orc = vlib.idn_oracle(gens.domains_of(addrs))
     E = gens.e_lines(addrs, orc)
-    combos = [(0, 0, 0), (1, 0, 0), (0, 1, 0), (0, 0, 1)] + ([(1, 1, 0), (1, 0, 1), (0, 1, 1), (1, 1, 1)] if ctx.thorough() else [(1, 1, 1)])
+    combos = [(0, 0, 0), (1, 0, 0), (0, 1, 0), (0, 0, 1)] + ([(1, 1, 0), (1, 0, 1), (0, 1, 1), (1, 1, 1)] if ctx.thorough() else [(1, 1, 1), (1, 1, 0)])
     outs = {}
     for (r20, f53, us) in combos:
         lib = ctx.snap.lib(**{k: True for k, v in (('rfc20', r20), ('f5322', f53), ('uscore', us)) if v})
@@ -931,6 +933,10 @@ def check_C17(ctx):
         if nb[0] < 4:
             nb[0] += 1; relation_violation(ctx, rel, obj)
     dmap = {ln.split(' ')[1]: o for ln, o in zip(D, base[1])}
+    emode = {}
+    for cfg, (oL, oD, oE) in outs.items():
+        for ln, o in zip(E, oE):
+            f = ln.split(' '); emode[(cfg, f[3], f[2], int(f[1]))] = o
     for cfg, (oL, oD, oE) in outs.items():
         r20, f53, us = cfg
         if cfg == (0, 0, 0): continue
@@ -961,6 +967,27 @@ def check_C17(ctx):
                 viol('C17_isolated', {'build': cfg, 'case': ln, 'default_build': b, 'option_build': a, 'explanation': 'an ASCII-mode result changed with an option that does not concern it'})
             if m == 3 and not r20 and not f53 and not (us and b'_' in ab) and a.split(' ')[:3] != b.split(' ')[:3]:
                 viol('C17_isolated', {'build': cfg, 'case': ln, 'default_build': b, 'option_build': a, 'explanation': 'mode 6531 changed although only LABELS_ALLOW_UNDERSCORE is on and the address has no underscore'})
+            # mode 6531 at the e-mail level under RFC20 / FOLLOW_RFC5322 (and both): the documented effect and nothing else
+            if m == 3 and (r20 or f53) and not (us and b'_' in ab) and b'@' in ab and a.split(' ')[0].lstrip('-').isdigit() and b.split(' ')[0].lstrip('-').isdigit():
+                lp = ab[:ab.rfind(b'@')]
+                islp = lambda r: -15 <= r <= -4
+                r3, rb = int(a.split(' ')[0]), int(b.split(' ')[0])
+                has20 = r20 and any(c in (35, 94, 96, 126, 123, 125, 124) for c in unquoted_bytes(lp))
+                if not f53:
+                    if has20 and not islp(rb) and rb not in (-3, -16):      # -3 / -16: the frame was rejected before the local part was looked at
+                        if r3 != -7:
+                            viol('C17_rfc20', {'build': cfg, 'case': ln, 'default_build': b, 'option_build': a, 'explanation': 'mode 6531 (e-mail level): a local part the default build accepts and that has one of #^`{|}~ outside quotes must be rejected as special'})
+                    elif not has20 and a.split(' ')[:3] != b.split(' ')[:3]:
+                        viol('C17_isolated', {'build': cfg, 'case': ln, 'default_build': b, 'option_build': a, 'explanation': 'mode 6531 (e-mail level) changed for an address without #^`{|}~ outside quotes'})
+                elif all(1 <= c <= 127 for c in lp):
+                    o2 = emode.get((cfg, ah, ln.split(' ')[2], 2))
+                    if o2 and o2.split(' ')[0].lstrip('-').isdigit():
+                        r2 = int(o2.split(' ')[0])
+                        if has20 and not islp(r2) and r2 not in (-3, -16):
+                            if r3 != -7:
+                                viol('C17_rfc20', {'build': cfg, 'case': ln, 'mode_5322_same_build': o2, 'mode_6531': a, 'explanation': 'both options on: a pure-ASCII local part that mode 5322 accepts and that has one of #^`{|}~ outside quotes must be rejected as special in mode 6531'})
+                        elif not has20 and (islp(r2) or islp(r3)) and r2 != r3:
+                            viol('C17_follow_5322', {'build': cfg, 'case': ln, 'mode_5322_same_build': o2, 'mode_6531': a, 'explanation': 'pure-ASCII local part (e-mail level): mode 6531 must judge it as mode 5322 does in the same build'})
     return finish(ctx, rule='the library is built with the repository Makefile variables in %d configurations; L, D, E cases are compared with the model under the same configuration, and the '
                   'relations to the default build (rfc20: exactly the #^`{|}~-outside-quotes local parts; underscore: as default with _ as a letter; follow-5322: as mode 5322 on ASCII; everything else identical) '
                   'are evaluated on the implementation outputs' % len(combos), extra_trusted=['libidn2 2.3.3 as IDN oracle', 'GNU make + the repository Makefile'])
